@@ -3,4 +3,5 @@ pub mod engine;
 pub mod model;
 pub mod gen;
 pub mod anyval;
+pub mod docfmt;
 pub mod props;
